@@ -19,6 +19,10 @@ fn main() {
         std::process::exit(2);
     }
     let id = args[1].clone();
+    if id == "__c18-child" {
+        std::panic::set_hook(Box::new(|_| {}));
+        std::process::exit(checks::c18::child_main());
+    }
     let mut tier = match std::env::var("VERIF_TIER").as_deref() {
         Ok("thorough") => Tier::Thorough,
         _ => Tier::Quick,
